@@ -559,8 +559,6 @@ impl Graph {
                     .is_some()
             })
             .collect::<Vec<_>>();
-        // Don't remove the graph root (only happens when there are no leaves)
-        visit_stack.push(graph.root);
         let mut reach_accept = visit_stack.iter().cloned().collect::<HashSet<_>>();
         while let Some(state) = visit_stack.pop() {
             // Traverse the graph backwards to include any parents of visited nodes in the set of
@@ -571,6 +569,9 @@ impl Graph {
                 }
             }
         }
+        // Don't remove the graph root (only happens when no leaf can ever match). It is kept
+        // without being a seed of the traversal: states that merely lead back to it are dead.
+        reach_accept.insert(graph.root);
 
         // Now that we have a set of non-dead states, we can remove edges going to dead states.
         for state in graph.iter_states() {
